@@ -40,9 +40,17 @@ class ParseOutput:
     def node_return(self):
         tree = ast.parse(self.dedented_source_string)
         returns = []
-        for node in ast.walk(tree):
+        # Only the function's own returns count -- not those of functions or classes
+        # defined inside of it
+        scopes = (ast.FunctionDef, ast.AsyncFunctionDef, ast.ClassDef, ast.Lambda)
+        own = tree.body[0] if tree.body and isinstance(tree.body[0], scopes) else tree
+        todo = list(ast.iter_child_nodes(own))
+        while todo:
+            node = todo.pop(0)
             if isinstance(node, ast.Return):
                 returns.append(node)
+            elif not isinstance(node, scopes):
+                todo.extend(ast.iter_child_nodes(node))
 
         if len(returns) > 1:
             raise ValueError(
